@@ -14,11 +14,9 @@ from vlib import common, gen, tables, langselect
 
 PID = "C10"
 
-# genuine defects found by this check, pending a decision (fix in /repo or known_findings.json) — see DEFECTS.md
-PENDING = {
-    "xml-root:o-ex:rights": "DRMREL 1.0 is not recognised by its root element: an XML document <o-ex:rights xmlns:o-ex=...> without DOCTYPE is rejected (WBXML_ERROR_UNKNOWN_XML_LANGUAGE); Expat delivers the expanded name 'http://odrl.net/1.1/ODRL-EX|rights'; the '|' sends wbxml_tables_search_table through the namespace scan, which leaves the shared index at the end of the table, and the expanded name never equals the table's 'o-ex:rights'",
-    "xml-nsroot:syncml:metinf|MetInf": "a stand-alone <MetInf xmlns=\"syncml:metinf\"> without DOCTYPE is rejected: no namespace table starts with syncml:metinf and the root-element scan does not run after the namespace scan (shared index)",
-}
+# F1/F2 of DEFECTS.md (namespaced MetInf root, DRMREL root) are fixed in /repo (8a5d5ba, D30): nothing is pending, the old
+# behaviour is an ordinary violation
+PENDING = {}
 
 
 def run(ctx):
@@ -186,12 +184,13 @@ def shared_identifiers_py(tj):
 
     def by_root(root):
         idx = 0
+        local = None
         if "|" in root:
             for i, l in enumerate(langs):
                 if ns0(l) is not None and root.lower().startswith(ns0(l).lower()):
                     return l
-            idx = len(langs)
-        return tables.first(l for l in langs[idx:] if l["root"] == root)
+            local = root.rsplit("|", 1)[1]
+        return tables.first(l for l in langs if l["root"] == root or (local is not None and l["root"] is not None and l["root"].rsplit(":", 1)[-1] == local))
     for l in langs:
         if l["pub_num"] != 1:
             f = tables.first(x for x in langs if x["pub_num"] == l["pub_num"])
